@@ -10,6 +10,7 @@ import (
 	"math/rand"
 	"strings"
 
+	sdk "github.com/cosmos/cosmos-sdk/types"
 	"github.com/ethereum/go-ethereum/common"
 
 	"github.com/functionx/fx-core/v8/testutil/helpers"
@@ -159,7 +160,12 @@ var directedVariants = []string{"delegateV2", "undelegateV2", "redelegateV2", "w
 	"hasOracle", "isOracleOnline",
 	"transferFromShares/late-insufficient-shares", "crossChain/wfx/late-bad-receipt", "crossChain/tst/late-bad-receipt", "crossChain/origin/late-bad-receipt",
 	"crossChain/hook-token/late-bad-receipt", "bridgeCall/no-value+tst/late-token-fails", "bridgeCall/no-value+wfx+tst/late-token-fails",
-	"transferFromShares/keeper-rejects", "increaseBridgeFee/wfx:fail"}
+	"transferFromShares/keeper-rejects", "increaseBridgeFee/wfx:fail",
+	// for every state-changing method at least one input that decodes and whose keeper part returns an error
+	"delegateV2/unknown-validator", "delegateV2/keeper-rejects", "undelegateV2/unknown-validator", "undelegateV2/keeper-rejects",
+	"redelegateV2/unknown-validator", "redelegateV2/keeper-rejects", "withdraw/unknown-validator", "transferShares/unknown-validator",
+	"transferShares/keeper-rejects", "transferFromShares/unknown-validator", "cancelSendToExternal:fail", "increaseBridgeFee/origin:fail",
+	"executeClaim/no-such-claim", "executeClaim/late-cannot-execute", "crossChain/origin/bad-sum", "crossChain/wfx/zero", "bridgeCall/value+wfx/late-token-fails"}
 
 // benignHook: the hook body returns normally and contains a state-changing precompile call (the point of a hook token:
 // a native action inside the native action)
@@ -179,7 +185,8 @@ func (e *env) benignHook(p *program, in *inner) bool {
 
 // a directed variant is a failing one when its name says so
 func wantsFailure(want, wantMode string) bool {
-	return wantMode == "fail" || strings.Contains(want, "late-") || strings.Contains(want, "keeper-rejects")
+	return wantMode == "fail" || strings.Contains(want, "late-") || strings.Contains(want, "keeper-rejects") || strings.Contains(want, "unknown-validator") ||
+		strings.Contains(want, "no-such-claim") || strings.Contains(want, "bad-sum") || strings.HasSuffix(want, "/zero")
 }
 
 // directCalls: every method/variant called by an externally owned account with the precompile as the transaction's `to`
@@ -228,7 +235,11 @@ func (e *env) directed(rng *rand.Rand) []*program {
 		if i := len(want) - len(":fail"); i > 0 && want[i:] == ":fail" {
 			want, wantMode = want[:i], "fail"
 		}
-		for shape := 0; shape < 2; shape++ {
+		nShape := 2
+		if wantsFailure(want, wantMode) {
+			nShape = 3 // … and once with the failure caught at the call itself (the caller goes on and the transaction succeeds)
+		}
+		for shape := 0; shape < nShape; shape++ {
 			var got *program
 			for try := 0; try < 40000 && got == nil; try++ {
 				p := &program{meta: map[int]*meta{}, nodes: map[int]*evmx.Node{}, ctxOf: map[int]common.Address{}, inner: map[int]*inner{}, used: map[int]bool{}}
@@ -242,7 +253,7 @@ func (e *env) directed(rng *rand.Rand) []*program {
 				nd := &evmx.Node{ID: 10}
 				p.depth = 2 // hook bodies of directed programs stay small
 				mt := e.genPre(rng, p, nd, ctx, false)
-				if mt.variant != want || nd.Kind != evmx.KCall || nd.Gas != 0 || nd.Swallow || (mt.mode == "fail") != wantsFailure(want, wantMode) {
+				if mt.variant != want || nd.Kind != evmx.KCall || nd.Gas != 0 || nd.Swallow != (shape == 2) || (mt.mode == "fail") != wantsFailure(want, wantMode) {
 					continue
 				}
 				if in := p.inner[nd.ID]; in != nil && !e.benignHook(p, in) {
@@ -257,7 +268,7 @@ func (e *env) directed(rng *rand.Rand) []*program {
 					p.nodes[id], p.ctxOf[id] = n, c
 					return n
 				}
-				if shape == 0 {
+				if shape == 0 || shape == 2 {
 					p.root = []*evmx.Node{mk(1, e.pool[0]), nd, mk(2, e.pool[0])}
 				} else {
 					rv := &evmx.Node{Op: "revert", ID: 4}
@@ -307,7 +318,14 @@ func (e *env) genPre(rng *rand.Rand, p *program, nd *evmx.Node, ctx common.Addre
 		val = "fxvaloper1notavalidator"
 	}
 	amt := func(k int64) *big.Int { return new(big.Int).Mul(big.NewInt(k+int64(nd.ID)), big.NewInt(1e15)) }
-	if mode == "fail" && rng.Intn(2) == 0 {
+	if mode == "fail" && rng.Intn(3) == 0 {
+		switch m {
+		case "delegateV2", "undelegateV2", "redelegateV2", "withdraw", "transferShares", "transferFromShares":
+			// a well-formed validator address nobody registered: decoding succeeds, the keeper refuses
+			val = sdk.ValAddress(helpers.GenHexAddress().Bytes()).String()
+			variant = m + "/unknown-validator"
+		}
+	} else if mode == "fail" && rng.Intn(2) == 0 {
 		switch m {
 		case "delegateV2", "undelegateV2", "redelegateV2", "transferShares", "transferFromShares":
 			// valid arguments that the keeper rejects (more than the caller has)
@@ -539,6 +557,9 @@ func (e *env) genPre(rng *rand.Rand, p *program, nd *evmx.Node, ctx common.Addre
 			k := rng.Intn(nClaim)
 			nonce = int64(claim0 + k)
 			mode = fmt.Sprintf("use:%d", resClm+k) // a claim is executed at most once among the kept calls
+		} else if rng.Intn(2) == 0 {
+			nonce = int64(claim0 + nClaim + rng.Intn(nBadClm))
+			variant = m + "/late-cannot-execute" // pending, but the bridge module cannot pay it out
 		} else {
 			variant = m + "/no-such-claim"
 		}
